@@ -312,6 +312,12 @@ class _Simplify(ast.NodeTransformer):
         return n
 
 
+    def visit_GeneratorExp(self, n: ast.GeneratorExp):
+        """(f(x) for x in (a, b, c)) over a literal: the members it yields, written out (it is consumed once: unpacking, any/all, sum)"""
+        r = self.visit_ListComp(ast.ListComp(elt=n.elt, generators=n.generators))
+        return r if isinstance(r, ast.List) else n
+
+
 def _simplify(e: ast.AST) -> ast.AST:
     return _Simplify().visit(e)
 
